@@ -203,21 +203,50 @@ Section Parse.
   (* ================= AccessDeniedHTTP ================= *)
   Variable split_host : str -> option str.       (* net.SplitHostPort: host, None = error *)
 
-  (* the loop over strings.Split(xff, ",") *)
-  Fixpoint xff_walk (r : rules) (host : str) (elems : list str) : bool :=
+  (* route.parseIP (since f5e2970): everything from the first '%' on is cut, then net.ParseIP *)
+  Definition strip_zone (s : str) : str :=
+    match index_byte s 37 with Some i => firstn i s | None => s end.
+  Definition parse_ip_zone (s : str) : option ipaddr := parse_ip (strip_zone s).
+
+  (* the loop over strings.Split(xff, ","); [pip] = the parse function the loop body calls *)
+  Fixpoint xff_walk (pip : str -> option ipaddr) (r : rules) (host : str) (elems : list str) : bool :=
     match elems with
     | [] => false
     | x :: rest =>
         let xip := trim_space x in
-        if beq xip host then xff_walk r host rest else
-        match parse_ip xip with
-        | None => xff_walk r host rest
-        | Some ip => if deny_by_ip r (Some ip) then true else xff_walk r host rest
+        if beq xip host then xff_walk pip r host rest else
+        match pip xip with
+        | None => xff_walk pip r host rest
+        | Some ip => if deny_by_ip r (Some ip) then true else xff_walk pip r host rest
         end
     end.
 
-  (* [xff] = r.Header["X-Forwarded-For"], all field values in order; Header.Get reads the first *)
+  (* [xff] = r.Header.Values("X-Forwarded-For"): all field values in order.  Since 273c6ed the
+     walk runs over their comma-join; since f5e2970 host and elements go through parseIP. *)
   Definition access_denied_http (r : rules) (remote : str) (xff : list str) : bool :=
+    if rules_empty r then false else
+    match split_host remote with
+    | None => false
+    | Some host =>
+        if deny_by_ip r (parse_ip_zone host) then true else
+        let v := join xff [44] in
+        if is_nil v then false else xff_walk parse_ip_zone r host (split_byte v 44)
+    end.
+
+  (* ---- the code before the two repairs, kept for the refutation theorems ---- *)
+  (* before f5e2970 (after 273c6ed): net.ParseIP directly, a zone makes it answer nil *)
+  Definition access_denied_http_zone_unrepaired (r : rules) (remote : str) (xff : list str) : bool :=
+    if rules_empty r then false else
+    match split_host remote with
+    | None => false
+    | Some host =>
+        if deny_by_ip r (parse_ip host) then true else
+        let v := join xff [44] in
+        if is_nil v then false else xff_walk parse_ip r host (split_byte v 44)
+    end.
+
+  (* before 273c6ed: r.Header.Get reads the first field value only *)
+  Definition access_denied_http_first_value_unrepaired (r : rules) (remote : str) (xff : list str) : bool :=
     if rules_empty r then false else
     match split_host remote with
     | None => false
@@ -225,7 +254,7 @@ Section Parse.
         if deny_by_ip r (parse_ip host) then true else
         match xff with
         | [] => false
-        | v :: _ => if is_nil v then false else xff_walk r host (split_byte v 44)
+        | v :: _ => if is_nil v then false else xff_walk parse_ip r host (split_byte v 44)
         end
     end.
 End Parse.
